@@ -211,6 +211,16 @@ type c02Msg struct{ s string }
 
 func (x c02Msg) SafeMessage() string { return x.s }
 
+// c02MsgSecret: a SafeMessager declares only its MESSAGE safe; the value has unsafe fields of its own that
+// must not show up whatever the directive (finding F10: a bad verb used to print the value itself as safe).
+type c02MsgSecret struct {
+	pub string
+	sec string
+	n   int
+}
+
+func (x c02MsgSecret) SafeMessage() string { return x.pub }
+
 // c02SF: a SafeFormatter with a public part (pub: declared safe by the implementation) and
 // unsafe parts (sec, n).
 type c02SF struct {
@@ -435,6 +445,7 @@ func c02Base(s *c02Sec) []c02Val {
 	add(RedactableString("rpub ‹"+s.S+"› rx"), "RedactableString("+q("rpub ‹"+s.S+"› rx")+")")
 	add(RedactableBytes("rpub ‹"+s.S+"› rx"), "RedactableBytes("+q("rpub ‹"+s.S+"› rx")+")")
 	add(Sprintf("n=%d %v", s.I, Safe("pub")), "Sprintf(\"n=%d %v\", "+d(s.I)+", Safe(\"pub\"))")
+	add(c02MsgSecret{"pubmsg2", s.S, s.I}, "c02MsgSecret{\"pubmsg2\", "+q(s.S)+", "+d(s.I)+"} /* SafeMessager with unsafe fields */")
 	// SafeFormatter implementations with public and unsafe parts
 	for _, mode := range []string{"direct", "printf", "print", "write", "verb", "nested", "bytes", "state"} {
 		add(c02SF{mode, "host", s.S, s.I}, "c02SF{"+q(mode)+", \"host\", "+q(s.S)+", "+d(s.I)+"}")
